@@ -340,12 +340,29 @@ mod abi {
         }
     }
 
+    /// The C dispatch layer contains inline assembly too (cpuid / xgetbv in the one-time CPU-feature detection): the
+    /// first call into a dispatcher of every library build, with detection reset to "never run", goes through the
+    /// System V trampoline like the kernels do.
+    fn dispatch_first_call() -> Result<(), String> {
+        for api in cshim::all_apis().iter().chain([cshim::api_tbb()].iter()) {
+            crate::guard::progress(api.name);
+            unsafe {
+                *api.features = cshim::F_UNDEFINED;
+                let args = [0u64; 10];
+                let r = call_checked(api.name, "blake3_simd_degree() with CPU-feature detection on its first run", Abi::SysV, api.degree as *const c_void, &args);
+                *api.features = cshim::F_UNDEFINED;
+                r?;
+            }
+        }
+        Ok(())
+    }
+
     fn check_abi_inner(c: &KCase) -> Result<(), String> {
         for k in cshim::raw_kernel_table().iter().filter(|k| k.asm) {
             crate::guard::progress(k.name);
             one(c, k)?;
         }
-        Ok(())
+        dispatch_first_call()
     }
 
     pub fn check_abi(c: &KCase) -> Result<(), String> {
@@ -477,7 +494,7 @@ pub fn subs() -> Vec<Box<dyn DynSub>> {
     {
         v.push(Box::new(PropSub::<KCase> {
             name: "abi-sentinels",
-            rule: "proptest: C05 tuples for every hand-written assembly routine (4 Unix files via a System V trampoline, 4 Windows-GNU files via a Win64 trampoline); the trampoline loads sentinels into rbx, rbp, r12-r15 (+ rsi, rdi, xmm6-xmm15 for Win64), clears DF, records registers/rsp/rflags on return; oracle = all sentinels, rsp and DF intact and result = spec",
+            rule: "proptest: C05 tuples for every hand-written assembly routine (4 Unix files via a System V trampoline, 4 Windows-GNU files via a Win64 trampoline), and the first blake3_simd_degree() call of every C library build with CPU-feature detection reset (inline cpuid/xgetbv assembly in the dispatch layer); the trampoline loads sentinels into rbx, rbp, r12-r15 (+ rsi, rdi, xmm6-xmm15 for Win64), clears DF, records registers/rsp/rflags on return; oracle = all sentinels, rsp and DF intact and result = spec",
             cases: (12_000, 120_000),
             strategy: c05::strategy,
             classify: |c| {
